@@ -3,7 +3,7 @@ constructor-built skeleton tree, plus depth-2 histories)."""
 import copy
 
 import pyglove as pg
-from engine.chx import Assume, Violation, reach
+from engine.chx import Assume, Violation, reach, untraced, concretize
 from harness import treeops as T
 
 PROPERTY = 'C01'
@@ -71,7 +71,32 @@ _ARGS = [('v0', 'int'), ('v1', 'int'), ('v2', 'int'), ('v3', 'int'), ('t', 'int'
          ('j', 'int'), ('w', 'int'), ('w2', 'int')]
 
 
+NODES_MAX = 14
+
+
 def h_step(params, v0, v1, v2, v3, t, i, vk, j, w, w2):
+  """Selectors are solver decisions made concrete by branching; the operation and the invariant run natively
+  (leaf values play no role in tree integrity: fixed constants)."""
+  t, i, vk, j = _select(params['skel'], params['op'], t, i, vk, j, params.get('kinds'))
+  with untraced():
+    return _step_body(params, 1, 2, 3, 4, t, i, vk, j, 50, 60)
+
+
+def _select(skel, op, t, i, vk, j, kinds=None):
+  """Lazy concretization: the target first; selectors of inapplicable (op, node kind) pairs are never branched on."""
+  with untraced():
+    nodes = T.nodes_of(T.SKELETONS[skel]((1, 2, 3, 4)))
+  t = concretize(t, range(len(nodes)))
+  if not T.applicable(op, nodes[t], t):
+    raise Assume()
+  n = T.fanout(nodes[t])
+  i = concretize(i, range(-n - 2, n + 3))
+  vk = concretize(vk, kinds if kinds is not None else range(len(T.VALUE_KINDS)))
+  j = concretize(j, range(1, len(nodes))) if T.VALUE_KINDS[vk] == 'existing' else 0
+  return t, i, vk, j
+
+
+def _step_body(params, v0, v1, v2, v3, t, i, vk, j, w, w2):
   root = T.SKELETONS[params['skel']]((v0, v1, v2, v3))
   if T.inv(root) is not None:
     return Violation('base:constructor_built_tree_violates_invariant', str(T.inv(root)))
@@ -81,15 +106,26 @@ def h_step(params, v0, v1, v2, v3, t, i, vk, j, w, w2):
 
 
 def h_step2(params, v0, v1, v2, v3, t, i, vk, j, w, w2, t2, i2, vk2):
-  root = T.SKELETONS[params['skel']]((v0, v1, v2, v3))
-  if vk not in (0, 1) or vk2 not in (0, 1, 2):
+  """Depth-2 history; both steps select lazily (target, then index/value kind for applicable pairs only)."""
+  t, i, vk, _ = _select(params['skel'], params['op'], t, i, vk, 0, (0, 1))
+  with untraced():
+    root = T.SKELETONS[params['skel']]((1, 2, 3, 4))
+    if _step(params, params['op'], root, t, i, vk, 0, 50, 60, 'step') is not None:
+      return None        # reported by h_step; histories stop at the first violation
+    nodes2 = T.nodes_of(root)
+  t2 = concretize(t2, range(len(nodes2)))
+  op2 = params['op2']
+  if not T.applicable(op2, nodes2[t2], t2):
     raise Assume()
-  if _step(params, params['op'], root, t, i, vk, j, w, w2, 'step') is not None:
-    return None        # reported by h_step; histories stop at the first violation
-  viol = _step(params, params['op2'], root, t2, i2, vk2, j, w2, w, 'step2')
-  if viol is not None:
-    viol.sig = f'after:{params["op"]}:' + viol.sig
-  return viol
+  n2 = T.fanout(nodes2[t2])
+  i2 = concretize(i2, range(-n2 - 2, n2 + 3))
+  vk2 = concretize(vk2, (0, 1, 2))
+  jj = concretize(j, range(1, len(nodes2))) if vk2 == 2 else 0
+  with untraced():
+    viol = _step(params, op2, root, t2, i2, vk2, jj, 60, 50, 'step2')
+    if viol is not None:
+      viol.sig = f'after:{params["op"]}:' + viol.sig
+    return viol
 
 
 COPY_KINDS = ['clone', 'clone_deep', 'copy', 'deepcopy', 'json', 'json_str', 'clone_override', 'add', 'mul', 'list_copy',
@@ -97,6 +133,12 @@ COPY_KINDS = ['clone', 'clone_deep', 'copy', 'deepcopy', 'json', 'json_str', 'cl
 
 
 def h_copy(params, v0, v1, v2, v3, t, ck, w):
+  t, ck = concretize(t, range(NODES_MAX)), concretize(ck, range(len(COPY_KINDS)))
+  with untraced():
+    return _copy_body(params, 1, 2, 3, 4, t, ck, 50)
+
+
+def _copy_body(params, v0, v1, v2, v3, t, ck, w):
   root = T.SKELETONS[params['skel']]((v0, v1, v2, v3))
   nodes = T.nodes_of(root)
   if not 0 <= t < len(nodes):
